@@ -1,10 +1,12 @@
-\* C14 behaviours, thorough: every triple of kinds for every configuration
+\* C14 behaviours, quick: kind -> (kind x fault) -> kind for the main configuration (without the multi-megabyte kind)
 CONSTANTS
   Bug = "none"
   ConfigNames = {"v1", "n1", "v2d", "n2d", "v3dd", "v1i", "s2d", "sn1", "wf", "ws", "wg"}
   Depth = 3
-  Shallow = 3
-  Deep = {}
+  Configs = {"v3dd"}
+  FaultAt = {1}
+  FaultMod = 0
+  NoHuge = {"v3dd"}
 SPECIFICATION RSpec
 INVARIANT Emit
 CONSTRAINT Bound
